@@ -422,9 +422,9 @@ def run(ctx):
                 alphabet=len(all_ops(cfg)), new_states_per_depth=r['per_level'])
             if r['frontier']:
                 ctx.sample(dict(impl=impl, history=r['frontier'][len(r['frontier']) // 2]), limit=4)
-            if ctx.viol:
+            if ctx.unknown_viol():
                 break
-        if ctx.viol:
+        if ctx.unknown_viol():
             break
     ctx.count['traces_validated_against_impl'] = ctx.count['transitions']
     ctx.assumptions += ['zope.event is not importable in this image; events are captured by rebinding zope.interface.registry.notify',
